@@ -195,5 +195,6 @@ impl<'a> Expression<'a> {""")
     b.emit('} // verus!')
     b.emit(OUTSIDE)
     b.trusted += ['derived Clone/PartialEq on Grapheme, GraphemeCluster, Expression, Quantifier are structural',
+                  'new_alternation: the key closure of sort_by_key (`Reverse(option.len())`) is not executed by the model -- that every option meets the precondition of len() there (no alternation without options, no overflow of the summed lengths) and the resulting ORDER of the options are NOT decided',
                   'Box::from(x) == Box::new(x)', 'glang (meaning of one grapheme) and star are uninterpreted']
     return b
